@@ -189,6 +189,24 @@ impl Found {
     }
 }
 
+/// Is `b` (the boxed error held directly by `IVPError::UserError`) the very error object the
+/// stub returned for `tag` with payload kind `p`? No wrapper, no re-boxing, no stringification.
+pub fn is_original(b: &(dyn Error + 'static), p: Payload, tag: u64) -> bool {
+    match p {
+        Payload::Typed => b.downcast_ref::<SimFault>().map(|f| f.tag) == Some(tag),
+        Payload::Io => b
+            .downcast_ref::<std::io::Error>()
+            .map(|e| e.to_string() == format!("simfault:{:016x}", tag))
+            .unwrap_or(false),
+        Payload::Nested => b.downcast_ref::<NestedFault>().map(|n| n.inner.tag) == Some(tag),
+        Payload::Text => {
+            b.source().is_none()
+                && b.to_string() == format!("lookup table out of range (simfault:{:016x})", tag)
+                && b.downcast_ref::<SimFault>().is_none()
+        }
+    }
+}
+
 /// Decision of the fault plan for one call; separated so that it can be unit-tested.
 pub fn plan_fails(plan: &FaultPlan, call: u64) -> bool {
     plan.fails(call)
